@@ -501,9 +501,11 @@ class SimpleJSONRPCRequestHandler(SimpleXMLRPCRequestHandler):
                 raw_chunk = self.rfile.read(chunk_size)
                 if not raw_chunk:
                     break
-                chunks.append(utils.from_bytes(raw_chunk))
+                chunks.append(raw_chunk)
                 size_remaining -= len(raw_chunk)
-            data = "".join(chunks)
+            # Decode the whole body at once: a chunk can end in the middle of
+            # a multi-byte character
+            data = utils.from_bytes(b"".join(chunks))
 
             try:
                 # Decode content
